@@ -467,6 +467,24 @@ def run_hbq(ctx):
                    {"hbq_cases": [js[i]], "observed": res[i]})
 
 
+# ------------------------------------------------------------------ observation: client heartbeats bypass flow control
+def run_hbb(ctx):
+    res, out = yield ("go", "hbb", [1])
+    if not res:
+        ctx.broken("driver", "Go heartbeat-bypass driver did not produce results: %s" % out[-500:])
+        return
+    r = res[0]
+    ctx.count(("hbb",), nontrivial=r["heartbeats"] > 0, kind="fc/heartbeat-bypass-observed")
+    ctx.cov.setdefault("observations", {})["client heartbeats bypass SCTPConn.Write flow control"] = dict(
+        r, verdict="not a violation: the keep-alive sender is paced by its timer (32 bytes per Interval/2), it cannot outpace "
+        "the network; the bound is proved with that term (C16_buffered_bounded: 393216 + bytes written past flow control)")
+    # the theorem's bound, with the heartbeats as the foreign term
+    if r["maxseen"] > 393216 + 32 * r["heartbeats"]:
+        ctx.fail("fc/over-bound", "with the real heartbeat client the buffered amount reached %d, more than 393216 + 32 x %d heartbeats"
+                 % (r["maxseen"], r["heartbeats"]), {"observed": r})
+    yield ("coq", [])
+
+
 # ------------------------------------------------------------------ (ii') the window between Read's two selects: a search
 def run_win(ctx):
     iters = 100000 if ctx.tier == "quick" else 1000000
@@ -715,6 +733,12 @@ def run_reg(ctx):
             bad = ("registry-leak", "after every accept returned: %d certificate entr(y/ies), %d channel entr(y/ies) left"
                    % (steps[-1]["ncerts"], steps[-1]["nchans"]))
         kinds = []
+        if r.get("unclosed"):
+            kinds.append("undelivered-unclosed")
+            ctx.cov.setdefault("observations", {})["a connection handed to the channel of an accept that has left"] = {
+                "example": {"case": j, "unclosed_connections": r["unclosed"]},
+                "verdict": "not a violation of C16 as stated (nothing stays registered, nobody else receives it); the connection "
+                           "is neither delivered nor closed by the listener: a resource leak outside the statement, recorded"}
         if any(x >= 100 for x in ares):
             kinds.append("delivered")
         if 1 in ares:
@@ -835,7 +859,8 @@ def gen_lb_cases(ctx):
             dials.append({"sec": rng.randrange(npairs), "delay_ms": rng.randrange(0, 30)})
         dials.append({"sec": nsec - 1, "delay_ms": 0})
         dials.append({"sec": nsec - 2, "delay_ms": rng.randrange(0, 30)})
-        cases.append({"secrets": [x.hex() for x in secrets], "accs": accs, "dials": dials, "npairs": npairs})
+        cases.append({"secrets": [x.hex() for x in secrets], "accs": accs, "dials": dials, "npairs": npairs,
+                      "budget_ms": 2500 if quick else 8000, "dial_ms": 2500 if quick else 6000})
     if ctx.replay:
         cases = replay_cases(ctx, "lb_cases")
     return cases
@@ -905,8 +930,9 @@ def run_lb(ctx):
     for c, r in zip(cases, res):
         probs = lb_eval(c, r)
         # timing-dependent complaints are confirmed by re-running the case alone
-        if probs and all(p[2] for p in probs):
-            for _ in range(2):
+        deterministic_seen = any(f["key"].startswith("registry/") for f in ctx.failures)
+        if probs and all(p[2] for p in probs) and not deterministic_seen:
+            for _ in range(1):
                 r2 = go([c])
                 if r2 is None:
                     return
@@ -962,7 +988,7 @@ def run(ctx):
     only = (ctx.replay or {}).get("only")
     if ctx.replay and not only:
         only = [k for k, v in REPLAY_KEYS.items() if replay_cases(ctx, v)] or ["none"]
-    subs = [("read", run_reads), ("fc", run_fc), ("hbq", run_hbq), ("win", run_win), ("reg", run_reg), ("mat", run_mat), ("wd", run_wd), ("lb", run_lb)]
+    subs = [("read", run_reads), ("fc", run_fc), ("hbq", run_hbq), ("win", run_win), ("hbb", run_hbb), ("reg", run_reg), ("mat", run_mat), ("wd", run_wd), ("lb", run_lb)]
     import time
     ctx.cov["timing_s"] = {}
     t0 = time.time()
